@@ -57,7 +57,7 @@ func c05CheckPos(fl *sFlow, k *c05Key, id string, tag string) {
 // every quiescent point.
 func VerifC05_WriteLoop() {
 	K := vParam("K", 3)
-	fl := sNewFlowBatch(vBool("sameTarget"), 1+vChoice("batchSize", vParam("B", 2)))
+	fl := sNewFlowBatchSize(vBool("sameTarget"), 1+vChoice("batchSize", vParam("B", 2)), 1)
 	fl.w.f.faultOn = "pos"
 	fl.w.f.maxF = 2
 	keys := []*c05Key{{task: fl.a, coll: 1, name: "a"}, {task: fl.b, coll: 2, name: "b"}}
@@ -80,6 +80,7 @@ func VerifC05_WriteLoop() {
 	}
 	fl.writer.canFail, fl.bWriter.canFail = true, true
 	fl.w.f.faults, fl.w.f.nFault = vBool("storeMayFail"), 0
+	oversizedUsed := false
 	for n := 0; n < K; n++ {
 		k := keys[vChoice("stream", 2)]
 		id := k.name + string(rune('1'+len(k.sent)))
@@ -90,7 +91,13 @@ func VerifC05_WriteLoop() {
 		}
 		before, had := fl.storedPos(k.task, k.coll)
 		nAck := len(fl.writer.acks) + len(fl.bWriter.acks)
-		ch <- sPack(k.task, k.coll, k.name, id, uint64(100+n)<<18, vBool("dataPack"))
+		rows := 1
+		isData := vBool("dataPack")
+		if isData && !oversizedUsed && vBool("oversizedPack") {
+			rows = 2000 // above the batcher's size threshold (1 KB in this scenario); at most one per history
+			oversizedUsed = true
+		}
+		ch <- sPackRows(k.task, k.coll, k.name, id, uint64(100+n)<<18, isData, rows)
 		vQuiesce()
 		for _, kk := range keys {
 			if pos, has := fl.storedPos(kk.task, kk.coll); has {
